@@ -227,6 +227,8 @@ def mdp : P String := do
   let tiny := (h.any (fun f => f.vals.any (fun q => isZeroSmall q && q != 0))) || ((gModel ++ R).any (fun f => f.vals.any (fun q => isZeroSmall q && q != 0)))
   let v := { v with tag := v.tag ++ (if tiny then " tiny_entries" else "") }
   let v := lpDiff "LinearProgramming" v gen ((mdpStatedObj h).zipIdx.map (fun (q, i) => (i, q))) rec
+  -- the objective the code states (Σ_k mean(h_k.values) w_k) is the flat objective Σ_s V_w(s)/|S|: decided exactly here
+  let v := v.diffIf (mdpStatedObj h != c) "LinearProgramming.lp stated_objective_is_not_the_uniform_flat_objective"
   let sfx := if multi then "_multi_component" else ""
   match simplex n rows c with
   | .fuel => return "skip simplex_fuel"
